@@ -197,6 +197,9 @@ class Encoder:
         self.symmetry = symmetry
         self.init_events = init_events
         self.free_queues = set(free_queues)      # queues whose initial contents are arbitrary (single-call contracts)
+        self.use_clock = True                    # False: no operation depends on time; the clock stays put
+        self.initial_override = None             # dict state-var -> value: start from a state computed by a prefix run
+        self.fixed_schedule = None               # list of thread names: the first steps follow this schedule exactly
         self.cons = []
         self.S = []
         self.aux = []
@@ -356,6 +359,8 @@ class Encoder:
         return S
 
     def initial(self, S):
+        if self.initial_override is not None:
+            return [S[n] == v for n, v in self.initial_override.items() if n in S]
         c = []
         for oid, d in self.objects.items():
             kd = d['kind']
@@ -534,8 +539,8 @@ class Encoder:
                 b.append(ev.res['t'] == nt)
             elif kind == 'spawn':
                 # activate the first inactive slot of the matching kind
-                slots = [u for u in self.threads if not u.active]
                 want = ev.extra
+                slots = [u for u in self.threads if not u.active and (want is None or u.kind == want)]
                 done = z3.BoolVal(False)
                 for u in slots:
                     free = z3.And(z3.Not(S['active:' + u.name]), z3.Not(done))
@@ -615,7 +620,7 @@ class Encoder:
             # time advances at the start of the step
             Sin = dict(S0)
             nowp = S0['now'] + self.adv[k]
-            cons.append(z3.ULE(self.adv[k], bv(1 << 40)))
+            cons.append(z3.ULE(self.adv[k], bv(1 << 40)) if self.use_clock else self.adv[k] == 0)
             Sin['now'] = nowp
             updates = {name: [] for name in S0}
             for c in self.cmds:
@@ -633,6 +638,11 @@ class Encoder:
                 for fire, val in updates[name]:
                     e = z3.If(fire, val, e)
                 cons.append(S1[name] == e)
+        if self.fixed_schedule:
+            for k, tn in enumerate(self.fixed_schedule):
+                idxs = [c.idx for c in self.cmds if c.thread.name == tn]
+                cons.append(z3.Or(*[self.cmdvar[k] == i for i in idxs]))
+                cons.append(self.adv[k] == 0)
         # symmetry breaking: in a group of identical threads, thread i+1 leaves its start only after thread i did
         for group in self.symmetry:
             for a, b_ in zip(group, group[1:]):
@@ -678,11 +688,11 @@ class Encoder:
         return z3.And(S['parked:' + t.name], z3.Or(*[S['pc:' + t.name] == l for l in ls]))
 
     def frontier_reached(self):
+        # frontier locations are absorbing and the overflow flag is sticky: looking at the last state is enough
         alts = []
-        for k in range(self.K + 1):
-            for t in self.threads:
-                alts.append(self.at_term(t, self.S[k], 'frontier'))
-            alts.append(self.S[k]['overflow'])
+        for t in self.threads:
+            alts.append(self.at_term(t, self.S[self.K], 'frontier'))
+        alts.append(self.S[self.K]['overflow'])
         return z3.Or(*alts)
 
     # ---------------------------------------------------------------- solving
@@ -704,6 +714,27 @@ class Encoder:
 
     def _needs_arrays(self):
         return False
+
+    def final_state(self, m):
+        """values of all state variables at step K in model m (used to start another unrolling from there)"""
+        out = {}
+        for n, v in self.S[self.K].items():
+            out[n] = m.eval(v, model_completion=True)
+        return out
+
+    def pinned_results(self, m):
+        """equalities fixing the result symbols of the operations that fired in model m (prefix run); symbols of
+        operations that did not fire stay free"""
+        cs = []
+        for k in range(self.K):
+            ci = m.eval(self.cmdvar[k], model_completion=True).as_long()
+            if ci >= len(self.cmds):
+                continue
+            for st in self.cmds[ci].steps:
+                if st[0] in ('ev', 'wake'):
+                    for v in st[1].res.values():
+                        cs.append(v == m.eval(v, model_completion=True))
+        return cs
 
     def trace(self, m):
         """readable schedule from a model"""
